@@ -118,6 +118,7 @@ def finish(prop, pc, tier, seed, results, kani_res, wall, update_baseline=False)
     # ---- decide
     violations = []
     known_lines = []
+    witness_checks = []
     for oid, o in sorted(obligations.items()):
         if o["status"] != "failed":
             continue
@@ -125,6 +126,14 @@ def finish(prop, pc, tier, seed, results, kani_res, wall, update_baseline=False)
             for k in known_by_obl[oid]:
                 if k["property"] == prop or prop in k.get("also", []):
                     known_lines.append("KNOWN-FINDING: property=%s %s [obligation %s]" % (prop, k["what"], oid))
+                    if tier == "thorough" and k.get("witness"):
+                        # the listed witness must still reproduce on the real binary
+                        sys.path.insert(0, HERE)
+                        import replay as _rp
+                        ok, obs = _rp.run_probe(k["witness"])
+                        witness_checks.append({"obligation": oid, "witness_still_fails": ok is False})
+                        if ok is not False:
+                            undecided.append("known finding %s: the listed witness no longer reproduces" % oid)
             o["status"] = "known-finding"
             continue
         violations.append(o)
@@ -195,6 +204,7 @@ def finish(prop, pc, tier, seed, results, kani_res, wall, update_baseline=False)
             "unverified_residue": pc.get("residue", []),
             "undecided": undecided,
             "proof_hints_not_placed": degraded,
+            "known_finding_witnesses": witness_checks,
             "failed_obligations": [o["id"] for o in violations],
             "all_obligation_ids": sorted(obligations.keys()),
         },
